@@ -607,8 +607,9 @@ EXTRA = {
     "C04": "Byte-string distances are also evaluated for non-UTF-8 operands; the partition includes user classes with partial / inconsistent rich-comparison protocols, str subclasses with their own comparison, containers whose __contains__ disagrees with iteration, and exception classes with a metaclass hook or ABC registration (MRO oracle).",
     "C05": "C05.record: every predicate callback reaches _update_metrics; an early return is allowed only under the one-shot-iterator guard of its operand and never under a condition that reads tracer state.",
     "C07": "C07.deps interprets the control-dependence queries over graphs with chains of unlabelled edges, a single-call fixed point and roots reached through two unlabelled controllers.",
+    "C10": "C10.mio-covered interprets MIOArchive.update over a grid of fitness values: the heuristic value 1.0 (target covered) exactly for a fitness of zero.",
     "C11": "The Chromosome comparison / sorting helpers are checked to be stateless between calls.",
-    "C12": "C12.laws interprets ComputationCache over every sequence (depth 3 quick / 4 thorough) of registrations, chromosome changes and queries: each getter returns what the registered functions compute on the current state.",
+    "C12": "C12.laws interprets ComputationCache over every sequence (depth 3 quick / 4 thorough) of registrations, chromosome changes and queries: each getter returns what the registered functions compute on the current state; set_fitness_values (local search restoring a test) keeps fitness and covered verdict in agreement.",
     "C13": "C13.aliasing (taint): archived solutions reach local search only through clone().",
     "C08": "C08.pipeline interprets from_path + get_scope + should_be_covered / should_cover_line over small modules x configurations (only-cover / no-cover nesting, definitions in excluded blocks, separators that do not end a line, async for, names defined twice, else branches of TYPE_CHECKING / __main__, marker flags); C08.read interprets read_module_ast over a representative file system (BOM, encoding declaration).",
     "C14": "C14.assignment interprets compute_ranking_assignment over populations with structurally equal individuals (partition by identity, rank == front index). RankSelection.get_index additionally satisfies a frequency law over a fixed grid of draws (better ranks are selected at least as often).",
